@@ -29,7 +29,7 @@ def export_table(ctx, vlib, extra_pkgs=()):
     the harness type-checks imports from the compiler's export data (no process per import)."""
     hdir = vlib.HARNESS
     if vlib.PRIVATE:
-        hdir = os.path.join(vlib.BUILD, "harness_" + vlib.sha(vlib.REPO))
+        hdir = os.path.join(vlib.BUILD, "harness_" + vlib.PTAG)
     pkgs = ["fmt", "os", "reflect", "strconv", "strings", "sort", "errors", "math", "testing", "time", "bytes",
             "unicode", "unicode/utf8", "io", "log", "math/big", "bufio", "regexp", "context", "net/http", "flag",
             "github.com/qiniu/x/osx", "github.com/qiniu/x/xgo", "github.com/qiniu/x/xgo/ng",
